@@ -78,6 +78,7 @@ def nada_dsl_to_nada_mir(outputs: List[Output]) -> Dict[str, Any]:
     INPUTS.clear()
     LITERALS.clear()
     FUNCTIONS.clear()
+    SourceRef.start_compilation()
     operations: Dict[int, Dict] = {}
     # Process outputs
     for output in outputs:
